@@ -1526,6 +1526,9 @@ class EOM:
             lambda T: self.temperatureProfileEqLHS(fields, dPhidz, T, s1, s2),
             method="Bounded",
             bounds=[0, 2 * max(Tplus, Tminus)],
+            # tolerance relative to the temperature scale (scipy's default is an
+            # absolute 1e-5, which is this value for T ~ 100)
+            options={"xatol": 1e-7 * max(Tplus, Tminus)},
         )
 
         # If the minimum is positive, there are no roots and we return the
@@ -1539,7 +1542,7 @@ class EOM:
         tempAtMinimum = minRes.x
         TMultiplier = max(Tplus / tempAtMinimum, 1.2)
         # If this is a detonation solution, finds a solution below TLowerBound
-        if abs(self.hydrodynamics.Tnucl - Tplus) < 1e-10:
+        if abs(self.hydrodynamics.Tnucl - Tplus) < 1e-10 * self.hydrodynamics.Tnucl:
             TMultiplier = min(Tminus / tempAtMinimum, 0.8)
 
         testTemp = tempAtMinimum * TMultiplier
@@ -1556,7 +1559,7 @@ class EOM:
         res = scipy.optimize.root_scalar(
             lambda T: self.temperatureProfileEqLHS(fields, dPhidz, T, s1, s2),
             bracket=(tempAtMinimum, testTemp),
-            xtol=1e-10,
+            xtol=1e-10 * self.hydrodynamics.Tnucl,
             rtol=self.errTol / 10,
         ).root
 
